@@ -508,6 +508,19 @@ def forall_gen(tier):
                            op_run("tt.at(0).concat(7); tt.concat(tab(1, 2)); print tt.count() tt.at(0).count();"), op_out()]
                     yield Case("f%d" % n, ops, {"kind": "forall", "m": mtext, "prog": prog, "row": True})
                     n += 1
+        # a typed declaration through the iterator re-creates the visited element: only with the element's own type
+        for setup, var, heads in (("tt = tab(2, tab(3, 1));", "TT", ("forall e in tt loop", "forall e in tt desc loop")),
+                                  ('tt = tab(2, tab(2, tab(1, "s")));', "TT", ("forall e in tt loop", "forall r in tt loop forall e in r loop", "forall e in tt.at(1) loop")),
+                                  ('tt = tab(3, tup(1, "a"));', "TT", ("forall e in tt loop",)),
+                                  ("tt = tab(3, 1);", "TT", ("forall e in tt loop",))):
+            for decl in ("e:table;", "e:tuple;", "e:integer;", "e:string;", "e:decimal;", "e:bytes;", "e:boolean;", "e:complex;", "e:object;"):
+                for wrap in ("%s", "if true then %s end if;", "begin %s exception when others then nop; end;"):
+                    for head in heads:
+                        tail = "end loop;" if head.count("forall") == 1 else "end loop; end loop;"
+                        prog = "%s %s %s" % (head, wrap % decl, tail)
+                        ops = [op_ctx(), op_run(setup), op_dump(0, var), op_run(prog), op_dump(0, var)]
+                        yield Case("f%d" % n, ops, {"kind": "forall", "m": decl, "prog": prog, "setup": setup, "rowdecl": True})
+                        n += 1
         for mtext in FORALL_MUT:
             for wrap in ("%s", "if true then %s end if;", "begin %s end;", "for k in 1 to 1 loop %s end loop;"):
                 body = wrap % mtext
@@ -612,6 +625,19 @@ def check_extra(case, res, vs):
             u = "unparsable dump %r" % tv
         if u and not collided:
             vs.append(Violation("decl:not-uniform", "after the puts: %s" % u, case))
+        return vs, True
+    if m["kind"] == "forall" and m.get("rowdecl"):
+        before, run, after = st[2].get("vars", {}).get("TT"), st[3], st[4].get("vars", {}).get("TT")
+        try:
+            u = uniform(parse_symbol(after)[2])
+        except Exception as e:
+            u = "unparsable dump %r" % after
+        if u:
+            vs.append(Violation("forall:decl-not-uniform:%s" % m["m"], "%s %s -> %s leaves %s: %s" % (m["setup"], m["prog"], run.get("r"), after, u), case))
+        elif run.get("r") != "ok" and after != before:
+            vs.append(Violation("forall:decl-refused-but-changed:%s" % m["m"], "%s %s -> %s leaves %s" % (m["setup"], m["prog"], run, after), case))
+        elif after is None or after.split("=")[0] != before.split("=")[0]:
+            vs.append(Violation("forall:decl-retyped:%s" % m["m"], "%s %s -> %s leaves %s" % (m["setup"], m["prog"], run, after), case))
         return vs, True
     if m["kind"] == "forall" and m.get("row"):
         run = st[2]
